@@ -315,7 +315,7 @@ int main(int argc, char **argv) {
   if (th) {
     for (int a = 0; a < NOPS; a++) for (int b = a; b < NOPS; b++) for (int c = b; c < NOPS; c++) triples.push_back({a, b, c});
   } else {
-    triples = {{1, 1, 7}, {7, 7, 7}, {6, 6, 6}, {1, 7, 2}, {0, 1, 7}, {5, 7, 1}, {3, 4, 7}, {2, 6, 7}, {1, 1, 1}, {8, 1, 7}, {9, 9, 9}, {9, 1, 7}};
+    triples = {{1, 1, 7}, {7, 7, 7}, {6, 6, 6}, {1, 7, 2}, {0, 1, 7}, {5, 7, 1}, {3, 4, 7}, {2, 6, 7}, {1, 1, 1}, {8, 1, 7}, {9, 9, 9}, {9, 1, 7}, {10, 10, 10}, {10, 3, 5}};
   }
   for (auto &t : triples) progs.push_back({0, {{t[0]}, {t[1]}, {t[2]}}});
   for (auto &t : std::vector<std::vector<int>>{{6, 6, 6}, {6, 1, 7}, {7, 7, 6}}) progs.push_back({1, {{t[0]}, {t[1]}, {t[2]}}});
